@@ -43,7 +43,10 @@ pub fn replay(cases: &str, verdicts: &str) {
         let rbf = guard(|| RBFKernel::new(var, l)).expect("valid parameters");
         if c["fam"] == "scalar" {
             // axioms on a sorted distance grid (incl. large magnitudes), both kernels, by value and by reference
-            let ds: Vec<f64> = (0..=64).map(|k| k as f64 / 8.0).chain([16.0, 100.0, 1e3, 2e3]).collect();
+            // distances: a fine grid in units of the length scale (any shortcut for small distances shows as a jump),
+            // then coarser and far out
+            let ds: Vec<f64> = (0..=128).map(|k| k as f64 / 256.0 * l).chain((5..=64).map(|k| k as f64 / 8.0 * l.max(1.0))).chain([16.0 * l.max(1.0), 100.0 * l.max(1.0), 1e3, 2e3]).collect();
+            let mut ds = ds; ds.sort_by(|a, b| a.partial_cmp(b).unwrap()); ds.dedup();
             for base in [0.0, -3.5, 999.0, -1000.0] {
                 let mut prev_rq = f64::INFINITY; let mut prev_rbf = f64::INFINITY;
                 let (mut mono, mut le, mut pos, mut sym, mut refeq) = (true, true, true, true, true);
@@ -55,7 +58,9 @@ pub fn replay(cases: &str, verdicts: &str) {
                     if !(a <= prev_rq && b <= prev_rbf) { mono = false; worst = json!({"x": x, "y": y, "rq": a, "rbf": b}); }
                     if !(a <= var && b <= var) { le = false; worst = json!({"x": x, "y": y, "rq": a, "rbf": b}); }
                     let t = d * d / (2.0 * l * l);
-                    if !(a > 0.0 && (b > 0.0 || t > 700.0)) { pos = false; worst = json!({"x": x, "y": y, "rq": a, "rbf": b}); }
+                    // positivity is judged where the true value is representable (it underflows to 0 far out)
+                    let rq_log = -alpha * (1.0 + t / alpha).ln();
+                    if !((a > 0.0 || rq_log < -700.0) && (b > 0.0 || t > 700.0)) { pos = false; worst = json!({"x": x, "y": y, "rq": a, "rbf": b}); }
                     if a.to_bits() != <RQKernel as Kernel<f64, f64>>::forward(&rq, y, x).to_bits() || b.to_bits() != <RBFKernel as Kernel<f64, f64>>::forward(&rbf, y, x).to_bits() { sym = false; }
                     if a.to_bits() != <RQKernel as Kernel<&f64, f64>>::forward(&rq, &x, &y).to_bits() || b.to_bits() != <RBFKernel as Kernel<&f64, f64>>::forward(&rbf, &x, &y).to_bits() { refeq = false; }
                     prev_rq = a; prev_rbf = b;
@@ -71,17 +76,18 @@ pub fn replay(cases: &str, verdicts: &str) {
                 v.check(z_rq == var && z_rbf == var, "scalar zero-distance", cls, &c, json!([z_rq, z_rbf]));
             }
             // matrix form on nearby points of large magnitude with this length scale equals the scalar form
-            let xs = [1000.1, 1000.1 + 1e-5, -999.5, 0.25, 1000.1];
-            let ys = [1000.1, -999.5 + 2e-6, 3.0];
+            // ... and on moderately close points (a tenth of the length scale apart)
+            let xs = [1000.1, 1000.1 + 1e-5, -999.5, 0.25, 1000.1, 0.25 + 0.1 * l, 7.0];
+            let ys = [1000.1, -999.5 + 2e-6, 3.0, 0.25 + 0.05 * l, 7.0 + 0.013 * l];
             let e_rq: Vec<f64> = xs.iter().flat_map(|x| ys.iter().map(move |y| (*x, *y))).map(|(x, y)| <RQKernel as Kernel<f64, f64>>::forward(&rq, x, y)).collect();
             let e_rbf: Vec<f64> = xs.iter().flat_map(|x| ys.iter().map(move |y| (*x, *y))).map(|(x, y)| <RBFKernel as Kernel<f64, f64>>::forward(&rbf, x, y)).collect();
             let lc = if l < 0.6 { "short-length-scale" } else { "long-length-scale" };
             for (form, g) in gram_forms(&rq, &xs, &ys) {
-                let ok = g.as_ref().map(|m| m.nrows == 5 && m.ncols == 3 && m.data.iter().zip(&e_rq).all(|(a, b)| (a - b).abs() <= 1e-9 * var) && m.data.iter().all(|a| *a <= var)).unwrap_or(false);
+                let ok = g.as_ref().map(|m| m.nrows == xs.len() && m.ncols == ys.len() && m.data.iter().zip(&e_rq).all(|(a, b)| (a - b).abs() <= 1e-9 * var) && m.data.iter().all(|a| *a <= var)).unwrap_or(false);
                 v.check(ok, &format!("RQ matrix-form {}", form), &format!("large-magnitude-nearby {}", lc), &c, json!(g.as_ref().map(|m| fjs(&m.data))));
             }
             for (form, g) in gram_forms(&rbf, &xs, &ys) {
-                let ok = g.as_ref().map(|m| m.nrows == 5 && m.ncols == 3 && m.data.iter().zip(&e_rbf).all(|(a, b)| (a - b).abs() <= 1e-9 * var) && m.data.iter().all(|a| *a <= var)).unwrap_or(false);
+                let ok = g.as_ref().map(|m| m.nrows == xs.len() && m.ncols == ys.len() && m.data.iter().zip(&e_rbf).all(|(a, b)| (a - b).abs() <= 1e-9 * var) && m.data.iter().all(|a| *a <= var)).unwrap_or(false);
                 v.check(ok, &format!("RBF matrix-form {}", form), &format!("large-magnitude-nearby {}", lc), &c, json!(g.as_ref().map(|m| fjs(&m.data))));
             }
             // parameter validation
@@ -109,6 +115,11 @@ pub fn replay(cases: &str, verdicts: &str) {
         v.check(ok_rbf, "RBF scalar-form", &class, &c, worst.clone());
         judge_gram(&mut v, "RQ", &class, &c, gram_forms(&rq, &x, &y), &e_rq, x.len(), y.len(), var);
         judge_gram(&mut v, "RBF", &class, &c, gram_forms(&rbf, &x, &y), &e_rbf, x.len(), y.len(), var);
+        // two DIFFERENT point sets of EQUAL size (square but not a Gram matrix): y' = the first |X| points of Y
+        let yq = &y[..x.len()];
+        let sub = |e: &[f64]| -> Vec<f64> { (0..x.len()).flat_map(|i| e[i * y.len()..i * y.len() + x.len()].to_vec()).collect() };
+        judge_gram(&mut v, "RQ", &format!("{} equal-size-sets", class), &c, gram_forms(&rq, &x, yq), &sub(&e_rq), x.len(), x.len(), var);
+        judge_gram(&mut v, "RBF", &format!("{} equal-size-sets", class), &c, gram_forms(&rbf, &x, yq), &sub(&e_rbf), x.len(), x.len(), var);
         // Gram matrix of one point set with itself: symmetric bit for bit, diagonal = variance
         for (form, g) in gram_forms(&rq, &x, &x).into_iter().chain(gram_forms(&rbf, &x, &x)) {
             let n = x.len();
